@@ -51,7 +51,7 @@ TRUSTED = [
     "result components and weights live in one field K in the model; the code uses float64 - compared exactly when "
     "weights are dyadic and results integer-valued (HashCalc), within 1e-12*scale otherwise",
 ]
-RULE = ("toy systems (Haldane 2D without/with C3, cubic 3D without symmetry / C4+I / Oh) x NKdiv x adpt_mesh (scalar 2,3 "
+RULE = ("serial and PARALLEL (stub ray, adversarial out-of-order multi-report schedules) evaluation; toy systems (Haldane 2D without/with C3, cubic 3D without symmetry / C4+I / Oh) x NKdiv x adpt_mesh (scalar 2,3 "
         "and anisotropic incl. [1,1,100]) x adpt_fac x use_irred_kpt x symmetrize x storage (memory, allow_restart, "
         "dump_results, discarded) x calculators (chaotic integer-valued, sharply peaked, AHC); a case is non-trivial "
         "when at least one OLD K-point changed weight during the history (division, or absorption of a new point into "
@@ -232,8 +232,9 @@ def make_calcs(cfg, save_mode="bin"):
     return c
 
 
-def do_run(cfg, store, d, tag, trace=None, niter=None, extra=None):
-    """one real run(); store in memory|restart|dump|discard.  Returns (result, prefix, klist_path)"""
+def do_run(cfg, store, d, tag, trace=None, niter=None, extra=None, stub=None):
+    """one real run(); store in memory|restart|dump|discard.  Returns (result, prefix, klist_path).
+    stub: a StubRay -> the run is evaluated in PARALLEL mode, the stub answering ray.wait adversarially"""
     system = rg.toy_system(cfg["system"])
     pre = os.path.join(d, f"out_{tag}")
     kl = os.path.join(d, f"kl_{tag}")
@@ -248,7 +249,9 @@ def do_run(cfg, store, d, tag, trace=None, niter=None, extra=None):
         kw["adpt_num_iter"] = 0
     if extra:
         kw.update(extra)
-    with quiet(), rg.no_ray():
+    if stub is not None:
+        kw["parallel"] = True
+    with quiet(), (rg.stub_ray(stub) if stub is not None else rg.no_ray()):
         nf = 2 if "ahc" in cfg["calcs"] else 1
         grid = wb.Grid(system, NKdiv=cfg["NKdiv"], NKFFT=[nf, nf, 1] if cfg["system"].startswith("haldane") else nf)
         if trace is not None:
@@ -600,6 +603,7 @@ def oracle(ctx, scale):
             ctx.count(f"oracle.iterations={niter}")
     rg.cleanup()
     oracle_restarted(ctx, scale)
+    oracle_parallel(ctx, scale)
 
 
 def own_value(cfg, key, kp):
@@ -618,6 +622,16 @@ def check_own_files(ctx, kl, cfg, what, case):
     for ik, kp in enumerate(K):
         path = getattr(kp, "result_storage_path", None)
         ctx.count("oracle.own_file.points_checked")
+        if getattr(kp, "result", None) is not None:
+            # allow_restart without dump: the result travels inside K_list.pickle
+            for key in keys:
+                got = np.array(kp.result.results[key].data, dtype=float).ravel()
+                want = own_value(cfg, key, kp).ravel()
+                if got.shape != want.shape or np.abs(got - want).max() > 1e-12 * max(1.0, np.abs(want).max()):
+                    ctx.fail(f"{what}: K-point {ik} of K_list.pickle does not carry its own '{key}' result "
+                             f"(stored {got}, own {want})", dict(case, ik=ik))
+                    return False
+            continue
         if path is None or not os.path.exists(path):
             ctx.fail(f"{what}: K-point {ik} of K_list.pickle has no storage file ({path})", dict(case, ik=ik))
             return False
@@ -640,6 +654,103 @@ def check_own_files(ctx, kl, cfg, what, case):
                          f"'{key}' result (file {got}, own {want})", dict(case, ik=ik))
                 return False
     return True
+
+
+def weighted_own_sum(kl, cfg, key, t):
+    """sum_i f_i R(k_i) after iteration t with R recomputed from the K-points' COORDINATES (nothing run() stored about
+    the results is used), exact rational arithmetic on the float values"""
+    K = rg.read_klist(kl)
+    fac = rg.read_all_factors(kl)[t]
+    tot = None
+    for ik in range(len(fac)):
+        if fac[ik] == 0:
+            continue
+        r = own_value(cfg, key, K[ik]).ravel()
+        if tot is None:
+            tot = [Fr(0)] * len(r)
+        f = F(fac[ik])
+        tot = [a + f * F(x) for a, x in zip(tot, r)]
+    return np.array([float(x) for x in tot])
+
+
+def oracle_parallel(ctx, scale):
+    """the same property under PARALLEL evaluation: the real run() with a stub `ray` whose wait answers are out of
+    order, incomplete and spread over several reports (few workers, many K-points).  Symmetry-reduced grids with
+    refinement, all storage modes.  After every iteration: saved == returned == sum f_i r_i from the restart files ==
+    sum f_i R(k_i) with R recomputed from the coordinates; every stored per-K result is its own K-point's."""
+    import random
+    rng = ctx.rng
+    d = rg.scratch("c10par")
+    nconf = ctx.n(5, 30) * scale
+    for it in range(nconf):
+        if it < ctx.n(3, 5):
+            cfg = merge_heavy(it, niter=rng.choice([2, 3]))
+        else:
+            cfg = rand_config(rng, real_calc=False)
+            cfg["adpt_num_iter"] = min(cfg["adpt_num_iter"], 3)
+            cfg["use_irred_kpt"] = cfg["use_irred_kpt"] or it % 2 == 0
+        keys = [k for k in cfg["calcs"] if k in ("hash", "peak", "spike")]
+        niter = cfg["adpt_num_iter"]
+        case = dict(cfg)
+        with ctx.attempt("parallel run() with adaptive refinement", case):
+            ref, refpre, refkl = do_run(cfg, "restart", d, "serial")     # serial reference
+            hist = history_magnitude(refkl, keys)
+            for store in ("restart", "dump", "memory", "discard"):
+                r2 = random.Random(rng.getrandbits(32))
+                ncpu = rng.choice([1, 2, 3])
+                stub = rg.StubRay(ncpu, rg.adversarial_chooser(r2, max_calls=rng.choice([6, 12, 20]), p_timeout=0.3),
+                                  shuffle=r2.shuffle)
+                res, pre, kl = do_run(cfg, store, d, f"p{store}", stub=stub)
+                order = [g for b in stub.batches for g in b["gets"] if g != "all"]
+                multi = sum(1 for b in stub.batches if len(b["answers"]) > 1)
+                ooo = any([g for g in b["gets"] if g != "all"] != sorted(g for g in b["gets"] if g != "all") for b in stub.batches)
+                sub = dict(case, store=store, workers=ncpu,
+                           schedule=[dict(n=b["n"], answers=b["answers"]) for b in stub.batches][:6])
+                ctx.case(signature=("par", str(sorted((k, str(v)) for k, v in cfg.items())), store, str(order)), nontrivial=ooo)
+                ctx.count(f"oracle.parallel.store={store}")
+                ctx.count("oracle.parallel.out_of_order_collection" if ooo else "oracle.parallel.in_order_collection")
+                ctx.count("oracle.parallel.process_calls_with_several_wait_reports", multi)
+                nit = 0 if store == "discard" else niter
+                bad = False
+                for t in range(nit + 1):
+                    for key in keys:
+                        got = np.array(res.results[key].data, dtype=float).ravel() if store == "discard" else \
+                            np.array(rg.load_saved(pre, key, t), dtype=float).ravel()
+                        tol = 1e-13 * hist[key] + 1e-12 * np.abs(got).max()
+                        if store in ("restart", "dump"):
+                            files, msg = weighted_sum_from_files(kl, [key], t)
+                            own = weighted_own_sum(kl, cfg, key, t)
+                            if msg or np.abs(got - files[key]).max() > tol:
+                                ctx.fail(f"parallel, {store}: result '{key}' saved after iteration {t} differs from sum_i f_i r_i "
+                                         f"over the restart files ({msg or np.abs(got - files[key]).max()})", dict(sub, iteration=t))
+                                bad = True
+                            elif np.abs(got - own).max() > tol:
+                                ctx.fail(f"parallel, {store}: result '{key}' saved after iteration {t} differs from "
+                                         f"sum_k f_k R(k) with R recomputed from the K-point coordinates by "
+                                         f"{np.abs(got - own).max():.3e} (tolerance {tol:.1e})",
+                                         dict(sub, iteration=t, saved=got, weighted_sum=own))
+                                bad = True
+                        else:
+                            want = np.array(rg.load_saved(refpre, key, t), dtype=float).ravel()
+                            if got.shape != want.shape or np.abs(got - want).max() > tol:
+                                ctx.fail(f"parallel, {store}: result '{key}' after iteration {t} differs from sum_k f_k R(k) "
+                                         f"(= the serial run's value) by {np.abs(got - want).max():.3e} (tolerance {tol:.1e})",
+                                         dict(sub, iteration=t))
+                                bad = True
+                        if bad:
+                            break
+                    if bad:
+                        break
+                if bad:
+                    continue
+                if store != "discard":
+                    for key in keys:
+                        last = np.array(rg.load_saved(pre, key, niter), dtype=float).ravel()
+                        if np.abs(np.array(res.results[key].data, dtype=float).ravel() - last).max() > 0:
+                            ctx.fail(f"parallel, {store}: returned '{key}' differs from the one saved after the last iteration", sub)
+                if store in ("restart", "dump"):
+                    check_own_files(ctx, kl, cfg, f"parallel run, {store}", sub)
+    rg.cleanup()
 
 
 def oracle_restarted(ctx, scale):
